@@ -48,12 +48,16 @@ RULE = ("histories of operations on caller-owned objects: decorator objects (22 
         "objects, dict / attr.ib mutated in between), make_class with shared attrs dict holding the "
         "three hook names and shared class_body dict (mutated in between, mixed with attr.s(these=)), "
         "one attr.ib() object placed in several bodies under different decorators, shared metadata "
-        "dict and validator/converter/hook lists mutated between and after definitions. For every "
+        "dict and validator/converter/hook lists mutated between and after definitions, attrs.Converter "
+        "INSTANCES (all takes_self/takes_field variants) shared across definitions on differently "
+        "named fields while the later class has a field of the earlier name with another converter "
+        "(also through a shared attr.ib() and make_class). For every "
         "definition k the harness also runs the history WITHOUT the other definitions; compared: "
         "fingerprint of class k observed at the END of the full history (definition exception class; "
         "fields: name, kw_only, default, init, validator and converter members by firing them, "
         "metadata keys, inherited; who provides __hash__/__eq__/__init__; __init__ signature; "
-        "pre/post-init hooks running; hash(inst) working; what fires on `inst.f = v` per field or "
+        "pre/post-init hooks running; hash(inst) working; per field which converters produced the "
+        "value stored by __init__ (converters tag their result); what fires on `inst.f = v` per field or "
         "FrozenInstanceError) == fingerprint alone == model prediction, and container contents at "
         "the end == what the caller put there. distinct = distinct history; non-trivial = at least "
         "two definitions")
@@ -86,9 +90,11 @@ def _mk_validator(name):
 
 
 def _mk_converter(name):
-    def c(value):
+    # also usable as the callable of attrs.Converter(..., takes_self/takes_field): extra arguments are
+    # ignored; the result is tagged so that the stored value tells which converters produced it
+    def c(value, *rest):
         LOG.append(name)
-        return value
+        return (name, value)
     c.__name__ = name
     return c
 
@@ -106,6 +112,15 @@ CONVS = {n: _mk_converter(n) for n in ("c1", "c2", "c3")}
 HOOKS = {n: _mk_hook(n) for n in ("h1", "h2")}
 HOOKS["convert"] = setters.convert
 HOOKS["validate"] = setters.validate
+
+
+def conv_tags(v):
+    """Which converters produced a stored value, innermost first."""
+    out = []
+    while isinstance(v, tuple) and len(v) == 2 and v[0] in CONVS:
+        out.append(v[0])
+        v = v[1]
+    return out[::-1]
 
 
 def _own_hash(self):
@@ -201,6 +216,7 @@ class World:
         self.dicts = []
         self.lists = []
         self.metas = []
+        self.convs = []       # attrs.Converter instances
         self.classes = []     # per definition step: class object or exception class name
         self.mods = []
 
@@ -213,6 +229,8 @@ class World:
             return table[a[1]]
         if a[0] == "lit":
             return [table[s] for s in a[1]]
+        if a[0] == "conv":
+            return self.convs[a[1]]      # the shared attrs.Converter instance itself
         return self.lists[a[1]]          # the shared list object itself
 
     def hook_arg(self, a):
@@ -321,6 +339,8 @@ def step(world, op):
             world.decos.append(world.mk_deco(op[1], op[2]))
         except Exception as e:                     # noqa: BLE001  (the factory call itself raised)
             world.decos.append(_exc_name(e))
+    elif k == "newconv":
+        world.convs.append(attrs.Converter(CONVS[op[1]], takes_self=op[2], takes_field=op[3]))
     elif k == "newlist":
         world.lists.append([(VALS | CONVS | HOOKS)[s] for s in op[1]])
     elif k == "newmeta":
@@ -422,7 +442,10 @@ def fingerprint(cls):
         if a.converter is None:
             cs = []
         else:
-            cs = _fired(lambda: a.converter(0))[0]
+            if isinstance(a.converter, attrs.Converter):
+                cs = _fired(lambda: a.converter(0, None, a))[0]
+            else:
+                cs = _fired(lambda: a.converter(0))[0]
         flds.append({"n": a.name, "kw": bool(a.kw_only), "d": a.default is not attr.NOTHING,
                      "init": bool(a.init), "v": vs, "c": cs, "m": sorted(a.metadata),
                      "inh": bool(a.inherited)})
@@ -461,7 +484,18 @@ def fingerprint(cls):
     if inst is None:
         fp["hashes"] = None
         fp["assign"] = None
+        fp["initconv"] = None
         return fp
+    if init_kind == "gen":
+        ic = []
+        for a in attr.fields(cls):
+            try:
+                ic.append([a.name, conv_tags(getattr(inst, a.name))])
+            except AttributeError:
+                ic.append([a.name, None])
+        fp["initconv"] = ic
+    else:
+        fp["initconv"] = None
     if init_kind == "gen":
         for a in attr.fields(cls):
             if not a.init and a.default is attr.NOTHING:
@@ -547,6 +581,8 @@ def enc_seq(a):
         return "(SOne %s)" % q(a[1])
     if a[0] == "lit":
         return "(SLit %s)" % lst(q(s) for s in a[1])
+    if a[0] == "conv":
+        return "(SConv %d)" % a[1]
     return "(SList %d)" % a[1]
 
 
@@ -662,6 +698,8 @@ def enc_op(op):
         if op[1] == "s":
             return "(ODecoS %s)" % enc_attrs_args(op[2])
         return "(ODecoDefine %s)" % enc_define_cells(op[1], op[2])
+    if k == "newconv":
+        return "(ONewConv %s %s %s)" % (q(op[1]), b(op[2]), b(op[3]))
     if k == "newlist":
         return "(ONewList %s)" % lst(q(s) for s in op[1])
     if k == "newmeta":
@@ -706,9 +744,12 @@ def enc_fp(fp):
                             "(AFired %s)" % lst(q(s) for s in (log + (["!" + exc] if exc else []))))
               for n, log, exc in fp["assign"])
     c = fp["construct"]
-    return "(FOk (FP %s %s %s %s %s %s %s %s %s %s))" % (
+    ic = "None" if fp["initconv"] is None else "(Some %s)" % lst(
+        "(%s, %s)" % (q(n), "None" if t is None else "(Some %s)" % lst(q(x) for x in t))
+        for n, t in fp["initconv"])
+    return "(FOk (FP %s %s %s %s %s %s %s %s %s %s %s))" % (
         flds, KIND[fp["hash"]], KIND[fp["eq"]], KIND[fp["init"]], sig, b(c["pre"]), b(c["post"]),
-        b(c["own"]), opt_b(fp["hashes"]), asg)
+        b(c["own"]), opt_b(fp["hashes"]), ic, asg)
 
 
 def mk_case(ops, scenario="?"):
@@ -986,6 +1027,56 @@ def meta_list_cases(rng, thorough):
     return out
 
 
+def shared_converter_cases(rng, thorough):
+    """attrs.Converter INSTANCES shared across definitions: used on differently named fields, with
+    the later class also having a field of the earlier name that has another converter."""
+    out = []
+    flags = [(False, False), (True, False), (False, True), (True, True)]
+    decos = ["define", "s", "define_dict", "frozen", "s_ad_frozen", "mutable_hooks", "define_noop",
+             "s_kw"]
+    others = [None, ["one", "c2"], ["conv", 1], ["lit", ["c2", "c3"]]]
+
+    def fld(name, c, ann=True):
+        a = {"d": True}
+        if c is not None:
+            a["c"] = c
+        return _f(name, ann=ann, **a)
+    combos = list(itertools.product(flags, decos, others, ["x", "y"]))
+    if not thorough:
+        combos = rng.sample(combos, 64)
+    for (ts, tf), d, other, first in combos:
+        second = "y" if first == "x" else "x"
+        pre = [["newconv", "c1", ts, tf], ["newconv", "c3", tf, ts], ["deco"] + list(DECOS[d])]
+        earlier = _body([fld(first, ["conv", 0])])
+        later = _body([fld("x", ["conv", 0] if second == "x" else other),
+                       fld("y", ["conv", 0] if second == "y" else other)])
+        for hist in ([earlier, later], [later, earlier], [earlier, later, earlier]):
+            out.append(mk_case(pre + [["apply", 0, h] for h in hist], scenario="shared-Converter"))
+    # random bodies over three field names and several shared Converter objects, also through a
+    # shared attr.ib() and make_class
+    n = 1500 if thorough else 150
+    for _ in range(n):
+        ops = [["newconv", "c1", rng.random() < 0.5, rng.random() < 0.5],
+               ["newconv", "c2", rng.random() < 0.5, rng.random() < 0.5],
+               ["attrib", {"d": True, "c": ["conv", 0]}],
+               ["newdict", [[rng.choice(["x", "y"]), ["ca", 0]]]]]
+        nd = rng.choice([1, 2])
+        for _i in range(nd):
+            ops.append(["deco"] + list(DECOS[rng.choice(decos)]))
+        choices = [None, ["one", "c3"], ["conv", 0], ["conv", 0], ["conv", 1], ["lit", ["c3", "c2"]]]
+        for _i in range(rng.choice([2, 2, 3])):
+            r = rng.random()
+            if r < 0.15:
+                ops.append(["make_class", 0, None, rng.choice([{}, {"frozen": True}, {"slots": True}]), "obj"])
+                continue
+            names = rng.sample(["x", "y", "z"], rng.choice([1, 2, 3]))
+            fs = [(_f(nm, e="shared", sid=0, ann=True) if rng.random() < 0.15 else fld(nm, rng.choice(choices)))
+                  for nm in names]
+            ops.append(["apply", rng.randrange(nd), _body(fs, base=rng.choice(["obj", "obj", "frozen", "hooked"]))])
+        out.append(mk_case(ops, scenario="shared-Converter"))
+    return out
+
+
 _PAIR_MEMO = {}
 
 
@@ -1014,6 +1105,7 @@ def generate(tier, seed):
     cases += make_class_cases(rng, thorough)
     cases += shared_ca_cases(rng, thorough)
     cases += meta_list_cases(rng, thorough)
+    cases += shared_converter_cases(rng, thorough)
     return cases
 
 
